@@ -24,10 +24,15 @@ Proof. induction us as [|[id i] r IH]; intros b; cbn [fold_units map run]; [refl
 
 Definition reset_done (b : pbuf) : pbuf := mkPbuf (pb_cd b) (pb_cur b) [] (pb_mag b) (pb_page b) (pb_recv b).
 
-Lemma process_enc t ident us b : (16 <=? ident) && (ident <=? 31) = true ->
-  ttx_process (ident :: concat (map enc_unit us)) t b =
+Lemma process_enc t ident us g b : (16 <=? ident) && (ident <=? 31) = true -> trail_ok g = true ->
+  ttx_process (ident :: concat (map enc_unit us) ++ g) t b =
   (do b' <- run b (map (fun u => (t, u)) us); Ok (reset_done b', pb_done b')).
-Proof. intros H. unfold ttx_process. rewrite H, units_enc, fold_units_run. reflexivity. Qed.
+Proof. intros H Hg. unfold ttx_process. rewrite H, (units_enc_trail us g Hg), fold_units_run. reflexivity. Qed.
+
+Lemma process_inert payload t b :
+  match payload with [] => true | ident :: _ => negb ((16 <=? ident) && (ident <=? 31)) end = true ->
+  ttx_process payload t b = Ok (b, []).
+Proof. intros H. unfold ttx_process. destruct payload as [|ident rest]; [reflexivity|]. apply negb_true_iff in H. rewrite H. reflexivity. Qed.
 
 (* feeding PES packets = running their units in order on the buffer whose done list also holds the pages already handed back *)
 Lemma feed_run : forall peses f vb', forallb pes_ok peses = true -> pb_done (f_buf f) = [] ->
@@ -35,17 +40,29 @@ Lemma feed_run : forall peses f vb', forallb pes_ok peses = true -> pb_done (f_b
   exists f', feed_all f (map enc_pes peses) = Ok f' /\ add_done (f_pages f') (f_buf f') = vb' /\ pb_done (f_buf f') = []
              /\ f_first f' = tmin peses (f_first f) /\ f_last f' = tmax peses (f_last f).
 Proof.
-  induction peses as [|[[t ident] us] r IH]; intros f vb' Hok Hd Hrun.
+  induction peses as [|p r IH]; intros f vb' Hok Hd Hrun.
   - cbn in Hrun. inversion Hrun; subst. exists f. split; [reflexivity|]. split; [reflexivity|]. split; [exact Hd|]. split; reflexivity.
-  - cbn [forallb pes_ok] in Hok. apply andb_true_iff in Hok. destruct Hok as [Hi Hr].
-    cbn [flat_map pes_units] in Hrun. rewrite run_app in Hrun. rewrite run_add in Hrun.
-    destruct (run (f_buf f) (map (fun u => (t, u)) us)) as [b1| |] eqn:E1; cbn [res_map bind] in Hrun; try discriminate.
-    cbn [map enc_pes feed_all]. unfold feed_step. cbn [fst snd]. rewrite (process_enc t ident us (f_buf f) Hi). rewrite E1. cbn [bind fst snd].
-    match goal with |- context [feed_all ?f1 _] => set (f1' := f1) end.
-    assert (Hvb : add_done (f_pages f1') (f_buf f1') = add_done (f_pages f) b1).
-    { subst f1'. unfold add_done, reset_done. cbn [f_pages f_buf pb_cd pb_cur pb_done pb_mag pb_page pb_recv]. rewrite app_nil_r. reflexivity. }
-    destruct (IH f1' vb' Hr eq_refl ltac:(rewrite Hvb; exact Hrun)) as (f' & E & H1 & H2 & H3 & H4).
-    exists f'. split; [exact E|]. split; [exact H1|]. split; [exact H2|]. split; [rewrite H3 | rewrite H4]; reflexivity.
+  - cbn [forallb] in Hok. apply andb_true_iff in Hok. destruct Hok as [Hi Hr].
+    destruct p as [t ident us g | payload | t payload].
+    + cbn [pes_ok] in Hi. apply andb_true_iff in Hi. destruct Hi as [Hi Hg].
+      cbn [flat_map pes_units] in Hrun. rewrite run_app in Hrun. rewrite run_add in Hrun.
+      destruct (run (f_buf f) (map (fun u => (t, u)) us)) as [b1| |] eqn:E1; cbn [res_map bind] in Hrun; try discriminate.
+      cbn [map enc_pes feed_all]. unfold feed_step. cbn [fst snd]. rewrite (process_enc t ident us g (f_buf f) Hi Hg). rewrite E1. cbn [bind fst snd].
+      match goal with |- context [feed_all ?f1 _] => set (f1' := f1) end.
+      assert (Hvb : add_done (f_pages f1') (f_buf f1') = add_done (f_pages f) b1).
+      { subst f1'. unfold add_done, reset_done. cbn [f_pages f_buf pb_cd pb_cur pb_done pb_mag pb_page pb_recv]. rewrite app_nil_r. reflexivity. }
+      destruct (IH f1' vb' Hr eq_refl ltac:(rewrite Hvb; exact Hrun)) as (f' & E & H1 & H2 & H3 & H4).
+      exists f'. split; [exact E|]. split; [exact H1|]. split; [exact H2|]. split; [rewrite H3 | rewrite H4]; reflexivity.
+    + cbn [flat_map pes_units app] in Hrun. cbn [map enc_pes feed_all]. unfold feed_step. cbn [fst snd bind].
+      destruct (IH f vb' Hr Hd Hrun) as (f' & E & H1 & H2 & H3 & H4).
+      exists f'. split; [exact E|]. split; [exact H1|]. split; [exact H2|]. split; [rewrite H3 | rewrite H4]; reflexivity.
+    + cbn [pes_ok] in Hi. cbn [flat_map pes_units app] in Hrun. cbn [map enc_pes feed_all]. unfold feed_step. cbn [fst snd].
+      rewrite (process_inert payload t (f_buf f) Hi). cbn [bind fst snd].
+      match goal with |- context [feed_all ?f1 _] => set (f1' := f1) end.
+      assert (Hvb : add_done (f_pages f1') (f_buf f1') = add_done (f_pages f) (f_buf f)).
+      { subst f1'. cbn [f_pages f_buf]. rewrite app_nil_r. reflexivity. }
+      destruct (IH f1' vb' Hr Hd ltac:(rewrite Hvb; exact Hrun)) as (f' & E & H1 & H2 & H3 & H4).
+      exists f'. split; [exact E|]. split; [exact H1|]. split; [exact H2|]. split; [rewrite H3 | rewrite H4]; reflexivity.
 Qed.
 
 (* ---- schedules ---- *)
